@@ -20,6 +20,12 @@ func runC04(e *env) {
 		return c06Opts{nNodes: 3 + r.intn(2), mult: 1 + r.intn(3), lit: pick(r, []int{0, 300}), ni: r.chance(1, 5),
 			nEvents: r.intn(16), removal: 35, startDelta: 1 + r.intn(3), xWeight: 1, script: "unknownleft"}
 	})
+	// prefix names: removal of "i1" / "o1" / partition 1 at A directly followed by a change of "i10" / "o10" /
+	// partition 10 at A, then gossip: the queued tombstone must still be forwarded
+	c06RunMany(e, "C04.run", 200*e.scale, 16, func(i int, r *rng) c06Opts {
+		return c06Opts{nNodes: 2 + r.intn(3), mult: 1 + r.intn(3), lit: pick(r, []int{0, 300}), ni: r.chance(1, 5),
+			nEvents: r.intn(14), removal: 35, startDelta: 2 + r.intn(2), xWeight: 1, script: "prefixdrop"}
+	})
 	// retention stream: hours-old entries and tombstones against a one-hour retention
 	c06RunMany(e, "C04.run", 250*e.scale, 12, func(i int, r *rng) c06Opts {
 		return c06Opts{nNodes: 2 + r.intn(2), mult: 2, lit: 3600, gcOld: true, nEvents: 12 + r.intn(24), removal: 30, startDelta: 3, xWeight: 1}
